@@ -27,14 +27,14 @@ CFG = {
                   "(accept-sets) unless the reference leaves it unconstrained; lifted to all histories from start-up (emu_refines_histories, "
                   "emu_refines_from_start). Round 3: also CUP/HVP/DECSTBM with more than two parameters (emu_refines_term_two), OSC 8 hyperlinks "
                   "through the real dispatcher (emu_refines_term_osc8; Spec.Term has the token osc8), RIS from every state (emu_refines_term_ris), "
-                  "and all histories over the extended vocabulary incl. long parameter lists, CUP/DECSTBM beyond two parameters and RIS "
+                  "and all histories over the extended vocabulary incl. long parameter lists, CUP/DECSTBM beyond two parameters, RIS and OSC 8 "
                   "(emu_refines_histories_X, emu_refines_from_start_X). Witness/F21,F22,F54,F106a-e prove the statement was false before the repairs.",
     "level_note": "Proved for all states/parameters/histories: every operation of the vocabulary, SGR included (emu_refines_term_all, "
                   "emu_refines_histories_all, emu_refines_from_start_all; sgr_refines_spec: on every well-formed SGR sequence the emulator's pen "
                   "abstracts to Spec.sgr). Restrictions: grapheme string non-empty (the parser never emits an empty one); non-SGR parameters with "
                   "colon sub-parameters in a parameter the function reads are outside tokOfX on purpose (terminal specific: xterm ignores such a "
-                  "sequence; emu_subparams_ignored states what the emulator does: the main value is used); OSC 8 is proved as one step, its "
-                  "composition into the history theorem is open (needs a frame lemma for vt.OSC8 over every function); DECSTR has no arm in csi() "
+                  "sequence; emu_subparams_ignored states what the emulator does: the main value is used); OSC 8 is inside the history theorem under 'the widget's OSC8 switch is on' (the default), "
+                  "which no operation changes (osc8_switch_stable); DECSTR has no arm in csi() "
                   "(ignored; noted, not judged); SGR 6, 21, values > 255 and four malformed SGR shapes (notes/C06.md "
                   "D1-D4) are terminal specific and outside the judged vocabulary. Model tied to the source by Gen/TermModes.lean (dispatch through "
                   "the regenerated tables) and by the C05 correspondence stream (snapshot after every op, incl. a slice of the C06 sequences); "
